@@ -639,6 +639,7 @@ def _num_ok(c, x):
 
 
 _BOUNDARY = [False]
+_IN_SET = [False]
 
 
 def _gen_num(draw, c: Optional[dict], floats: bool):
@@ -703,6 +704,8 @@ def valid(draw, prog: dict, t: dict, dyn: str = "id", fuel: int = 3, c: Optional
     if k == "none":
         return None
     if k == "any":
+        if _IN_SET[0]:
+            return pick(draw, [0, "a", None, True, 1.5, "b", 2])  # (cfg any_in_sets) below a set: hashable once deserialized
         return draw(small_json)
     if k == "ann":
         try:
@@ -736,10 +739,13 @@ def valid(draw, prog: dict, t: dict, dyn: str = "id", fuel: int = 3, c: Optional
             n = lo
         else:
             n = draw(st.integers(lo, max(lo, min(hi if hi is not None else 3, 3))))
-        out = [valid(draw, prog, t["of"], dyn, fuel - (0 if fuel > 0 else 0), None, stack) for _ in range(n)]
-        if k in ("set", "frozenset") and M.strip(t["of"], prog)["k"] == "any":
-            # (cfg any_in_sets) conforming data of a Set[Any] have hashable elements; arrays / objects come from the mutants
-            out = [x if not isinstance(x, (list, dict)) else pick(draw, [0, "a", None, True, 1.5]) for x in out]
+        was_in_set = _IN_SET[0]
+        if k in ("set", "frozenset"):
+            _IN_SET[0] = True  # conforming data of a Set[... Any ...] have hashable elements; arrays / objects come from the mutants
+        try:
+            out = [valid(draw, prog, t["of"], dyn, fuel - (0 if fuel > 0 else 0), None, stack) for _ in range(n)]
+        finally:
+            _IN_SET[0] = was_in_set
         if (c or {}).get("unique") or k in ("set", "frozenset"):
             uniq, seen = [], set()
             for x in out:
